@@ -20,6 +20,10 @@ CLAIMED = {
          "Static decision, for every string and every handler at once, that no name reaches a backend File in a name position without a dominating successful checkSafeName on that very expression (or comes from the path tree / a per-element checked list), that checkSafeName returns nil only under name != \"\", no '/', != \".\", != \"..\" and EINVAL otherwise, that walks advance one component per backend call and only from references whose mode (taken from the attributes of the file just walked) is a directory, and that attach reuses that walk. Right level: the quantifier over strings is absorbed by the four comparisons in checkSafeName; the rest is dominance on the CFG.",
          "Trusts strings.Contains/IndexByte semantics; value identity of names is syntactic (same resolved expression, request fields are not reassigned between check and use - reassignment kills the fact).",
          "DESIGN.md section 4 C09, section 3 C/G"),
+ "C04": ("per-handler guard-set extraction (path facts dominating each backend call, with the errno of each guard's exit), must-pass-through on handler exits (DeleteFID), success-side dominance of InsertFID, who-writes rule for the open state",
+         "Static decision of the session model handler by handler: unbound fids are refused with EBADF before any effect, Tclunk/Tremove reach DeleteFID on every exit, InsertFID is reachable only after every preceding backend/walk call is known to have succeeded and only success replies follow it, the property's guard table (open state, mode, type, xattr sub-protocol, CanOpen set, Tauth/auth-fid) is contained in the guards dominating each backend call with the prescribed errno, and opened/openFlags are written only on Open's success side and in the create literal. Right level: every (state, request) edge of the model is decided by the guards of one handler, which are dominance facts of its CFG; no sequence needs to be run.",
+         "Guards are matched as canonical path facts over resolved expressions (alternatives listed in checker/c04.go); an equivalent guard in an unlisted form is reported rather than assumed. The contents of the fid table over a history are not computed (only the per-step discipline).",
+         "DESIGN.md section 4 C04, section 3 C/F/G, Appendix C"),
 }
 
 NOT_YET = "check not built yet (work in progress; DESIGN.md section 4 describes the planned static rules)"
